@@ -207,12 +207,17 @@ type DStep struct {
 	ID      uint16   `json:"id,omitempty"`
 	Size    int      `json:"size,omitempty"`
 	Bytes   int      `json:"bytes,omitempty"`
+	RemLen  int      `json:"remlen,omitempty"` // pub: the payload size is chosen so that the packet's remaining length is exactly this
 	Dup     bool     `json:"dup,omitempty"` // pub QoS 2: the first copy already carries DUP=1
 	Clean   bool     `json:"clean,omitempty"` // reconnect: CleanSession of the second CONNECT
 }
 
 type DCase struct {
 	Steps []DStep `json:"steps"`
+	// BufSize: the Client's BufferSize (0: 16 KiB). With larger buffers some delivered
+	// messages have remaining lengths at the 2/3-byte and 3/4-byte boundaries of the
+	// length encoding and at the largest packet the buffer takes in (BufSize-8192).
+	BufSize int `json:"bufsize,omitempty"`
 }
 
 type invocation struct {
@@ -251,11 +256,14 @@ func runDispatch(c DCase) (res dresult) {
 			res.Classes = append(res.Classes, k)
 		}
 	}()
-	s, err := connect(nil)
+	s, err := connectBuf(nil, c.BufSize)
 	if err != nil {
 		return dresult{Incon: err.Error()}
 	}
 	defer s.close()
+	if c.BufSize > 16384 {
+		cls[fmt.Sprintf("client-buffers-%dKiB", c.BufSize/1024)] = true
+	}
 	var mu sync.Mutex
 	var invs []invocation
 	var reqs []*dreq
@@ -400,7 +408,20 @@ func runDispatch(c DCase) (res dresult) {
 			}
 		case "pub":
 			msgno++
-			pl := dpayload(msgno, st.Size)
+			size := st.Size
+			if st.RemLen > 0 {
+				size = st.RemLen - 2 - len(st.Topic)
+				if st.QoS > 0 {
+					size -= 2
+				}
+				switch {
+				case st.RemLen >= 2097152:
+					cls["delivered-message-with-4-byte-remaining-length"] = true
+				case st.RemLen >= 16384:
+					cls["delivered-message-with-3-byte-remaining-length"] = true
+				}
+			}
+			pl := dpayload(msgno, size)
 			switch st.QoS {
 			case 0:
 				s.srv.Send(&codec.Packet{Type: codec.PUBLISH, Topic: []byte(st.Topic), Payload: pl})
@@ -588,6 +609,25 @@ func genDispatch(t *rapid.T, q2heavy bool) DCase {
 			c.Steps = append(c.Steps, DStep{K: "reconnect", Clean: rapid.Bool().Draw(t, "rclean")})
 		default:
 			c.Steps = append(c.Steps, DStep{K: "filler", Bytes: rapid.SampledFrom([]int{6000, 20000, 50000}).Draw(t, "fb")})
+		}
+	}
+	// larger client buffers, and delivered messages at the boundaries they make reachable
+	switch rapid.IntRange(0, 15).Draw(t, "bufclass") {
+	case 0, 1:
+		c.BufSize = 32768
+	case 2:
+		c.BufSize = 262144
+	case 3:
+		c.BufSize = 4 << 20
+	}
+	if c.BufSize > 0 {
+		cands := map[int][]int{32768: {16383, 16384, 16385, 32768 - 8192 - 4}, 262144: {16384, 262144 - 8192 - 4, 100000}, 4 << 20: {2097151, 2097152, 2097153}}[c.BufSize]
+		n := 0
+		for i := range c.Steps {
+			if st := &c.Steps[i]; st.K == "pub" && st.QoS < 2 && n < 3 && rapid.Bool().Draw(t, "atboundary") {
+				st.RemLen = rapid.SampledFrom(cands).Draw(t, "remlen")
+				n++
+			}
 		}
 	}
 	return c
